@@ -51,6 +51,7 @@ class Check:
         self.extra = {}
         self.facts = None
         self.explanation = ''
+        self.rule_errors = []
 
     # ---- rules ---------------------------------------------------------------------------
     def rule(self, name, desc):
@@ -100,6 +101,12 @@ class Check:
             fn(self, *a)
         except AnchorMissing:
             pass
+        except Exception as e:      # a shape the rule cannot interpret: counted, reported on stderr, never a verdict
+            import sys
+            import traceback
+            tb = traceback.format_exc()
+            self.rule_errors.append({'rule_fn': getattr(fn, '__name__', str(fn)), 'error': repr(e), 'trace': tb[-1500:]})
+            print('RULE-ERROR %s %s: %r' % (self.pid, getattr(fn, '__name__', fn), e), file=sys.stderr)
 
     def sample(self, s):
         if len(self.samples) < 60:
@@ -156,6 +163,7 @@ class Check:
             'fixed_entries': [f for f in fixed if f['property'] == self.pid],
             'new_violations': [{'key': v['key'], 'what': v['what']} for v in new],
             'notes': self.notes,
+            'rule_errors': self.rule_errors,
             'checker_cmd': './check %s%s' % (self.pid, ' --tier thorough' if self.tier == 'thorough' else ''),
             'trusted_base': self.trusted,
             'exhaustive': False,
